@@ -44,10 +44,25 @@ fn merge_raw(b: &mut Block, tx: &Transaction) {
 /// Universe A: two forks, the same coinbase spent on both, an output created and spent on one
 /// fork, the same commitment created on the other, a re-created commitment, and six invalid blocks.
 pub fn universe_a(sc: &uni::Scratch, variant: usize) -> Tree {
+	universe_a_lifted(sc, variant, 0)
+}
+
+/// `lift` empty blocks p1..pN below m1: with 12 of them every block of the universe has a
+/// version-5 header (output root merged with the bitmap root, commit-only inputs), as on mainnet.
+fn lift_base(tb: &mut TreeBuilder, lift: usize) -> Option<usize> {
+	let mut prev = None;
+	for i in 1..=lift {
+		prev = Some(tb.add(&format!("p{}", i), prev, &BlockSpec::empty(200 + i as u32)));
+	}
+	prev
+}
+
+pub fn universe_a_lifted(sc: &uni::Scratch, variant: usize, lift: usize) -> Tree {
 	let mut tb = TreeBuilder::new(sc, 11, false);
 	let kc = uni::keychain(11);
+	let base = lift_base(&mut tb, lift);
 	// fork point varies with the variant: m3 or m4
-	let m1 = tb.add("m1", None, &BlockSpec::empty(1));
+	let m1 = tb.add("m1", base, &BlockSpec::empty(1));
 	let m2 = tb.add("m2", Some(m1), &BlockSpec::empty(2));
 	let m3 = tb.add("m3", Some(m2), &BlockSpec::empty(3));
 	let m4 = tb.add("m4", Some(m3), &BlockSpec::empty(4));
@@ -99,9 +114,14 @@ pub fn universe_a(sc: &uni::Scratch, variant: usize) -> Tree {
 /// Universe B: output created and spent on a fork that first loses, then wins; spends below and
 /// above the fork point; both directions of reorg.
 pub fn universe_b(sc: &uni::Scratch, variant: usize) -> Tree {
+	universe_b_lifted(sc, variant, 0)
+}
+
+pub fn universe_b_lifted(sc: &uni::Scratch, variant: usize, lift: usize) -> Tree {
 	let mut tb = TreeBuilder::new(sc, 12, false);
 	let kc = uni::keychain(12);
-	let m1 = tb.add("m1", None, &BlockSpec::empty(1));
+	let base = lift_base(&mut tb, lift);
+	let m1 = tb.add("m1", base, &BlockSpec::empty(1));
 	let m2 = tb.add("m2", Some(m1), &BlockSpec::empty(2));
 	let m3 = tb.add("m3", Some(m2), &BlockSpec::empty(3));
 	// spend cb1 below the fork point (height 4) when variant says so
@@ -186,10 +206,13 @@ impl Invariant for Inv02 {
 
 fn explore_tree(tree: &Tree, inst: &str, sc: &uni::Scratch, shard: usize, n: usize, reopen: bool, rep: &mut Report) {
 	let mut inv = Inv02 { inst: inst.to_string() };
-	let mut ex = Explorer::new(tree, sc, Options::NONE, inst);
+	// the lifting blocks p1..pN are applied once, below every history
+	let is_lift = |i: usize| tree.blocks[i].name.starts_with('p');
+	let prelude: Vec<Ev> = (0..tree.blocks.len()).filter(|i| is_lift(*i)).map(Ev::B).collect();
+	let mut ex = Explorer::with_prelude(tree, sc, Options::NONE, inst, &prelude);
 	ex.shard = (shard, n);
 	// valid blocks form the histories; reference-invalid blocks are probes at every state
-	let evs: Vec<Ev> = (0..tree.blocks.len()).filter(|i| tree.valid(*i).is_ok()).map(Ev::B).collect();
+	let evs: Vec<Ev> = (0..tree.blocks.len()).filter(|i| !is_lift(*i) && tree.valid(*i).is_ok()).map(Ev::B).collect();
 	let mut probes: Vec<Ev> = (0..tree.blocks.len()).filter(|i| tree.valid(*i).is_err()).map(Ev::B).collect();
 	if reopen {
 		probes.push(Ev::Reopen);
@@ -203,16 +226,21 @@ fn forks(tier: Tier, shard: usize, n: usize) -> Report {
 	let mut rep = Report::new();
 	let sc = uni::Scratch::new("c02");
 	let variants = tier.pick(1, 2);
-	for v in 0..variants {
-		let scr = &sc;
-		crate::chainx::guarded(&format!("A{}", v), &mut rep, move |rep| {
-			let ta = universe_a(scr, v);
-			explore_tree(&ta, &format!("A{}", v), scr, shard, n, tier == Tier::Thorough, rep);
-		});
-		crate::chainx::guarded(&format!("B{}", v), &mut rep, move |rep| {
-			let tb = universe_b(scr, v);
-			explore_tree(&tb, &format!("B{}", v), scr, shard, n, tier == Tier::Thorough, rep);
-		});
+	// lift 0: header versions 1-3 (the version transitions); lift 12: version 5 throughout
+	for lift in [0usize, 12] {
+		for v in 0..variants {
+			let scr = &sc;
+			let tag = if lift == 0 { String::new() } else { format!("+{}", lift) };
+			let (ia, ib) = (format!("A{}{}", v, tag), format!("B{}{}", v, tag));
+			crate::chainx::guarded(&ia.clone(), &mut rep, move |rep| {
+				let ta = universe_a_lifted(scr, v, lift);
+				explore_tree(&ta, &ia, scr, shard, n, tier == Tier::Thorough, rep);
+			});
+			crate::chainx::guarded(&ib.clone(), &mut rep, move |rep| {
+				let tb = universe_b_lifted(scr, v, lift);
+				explore_tree(&tb, &ib, scr, shard, n, tier == Tier::Thorough, rep);
+			});
+		}
 	}
 	// sanity of the universes themselves (vacuity guard): count reference-invalid blocks
 	if shard == 0 && rep.violations.is_empty() {
@@ -315,8 +343,21 @@ impl Engine for C02 {
 		uni::init_thread();
 		let inst = case["instance"].as_str().unwrap_or("");
 		let sc = uni::Scratch::new("replay");
-		let v: usize = inst[1..].parse().unwrap_or(0);
-		let tree = if inst.starts_with('A') { universe_a(&sc, v) } else { universe_b(&sc, v) };
-		crate::chainx::replay_events(&tree, case, Options::NONE, &sc)
+		if inst == "long" {
+			let tree = crate::c09::universe(&sc, "long");
+			let mut evs: Vec<Value> = crate::c09::parse_events(&tree, &["*main"]).iter().map(|e| json!(e.show(&tree))).collect();
+			evs.extend(case["events"].as_array().cloned().unwrap_or_default());
+			return crate::chainx::replay_events(&tree, &json!({"events": evs}), Options::NONE, &sc);
+		}
+		let (vs, lift) = match inst[1..].split_once('+') {
+			Some((a, b)) => (a, b.parse().unwrap_or(0)),
+			None => (&inst[1..], 0usize),
+		};
+		let v: usize = vs.parse().unwrap_or(0);
+		let tree = if inst.starts_with('A') { universe_a_lifted(&sc, v, lift) } else { universe_b_lifted(&sc, v, lift) };
+		// the lifting blocks come first
+		let mut evs: Vec<Value> = (1..=lift).map(|i| json!(format!("B(p{})", i))).collect();
+		evs.extend(case["events"].as_array().cloned().unwrap_or_default());
+		crate::chainx::replay_events(&tree, &json!({"events": evs}), Options::NONE, &sc)
 	}
 }
